@@ -4,6 +4,7 @@
 From GD Require Import Base.Prelude Model.Strings Model.Buffer Model.Unreal2Str Model.BufOps.
 From GD Require Import Model.Net Model.Valve Model.ValveShow Model.Master Model.Settings Model.Quake Model.Unreal2.
 From GD Require Import Spec.Rand Spec.ValveSpec Spec.ValveGen Spec.CaseEnc Spec.MasterSpec Spec.QuakeSpec Spec.Unreal2Spec.
+From GD Require Import Model.View Gen.CommonImpls Model.ViewInst Spec.ViewSpec.
 
 Definition rd_u8 : R N := read_uint true 1.
 Definition rd_u16 : R N := read_uint true 2.
@@ -343,6 +344,49 @@ Definition case_spec_u2string : R bytes :=
   let w := gen_long_string len (negb (u =? 0)) in
   ret (show_hex (enc_ustring w) ++ str "|" ++ show_str (expected_ustring w)).
 
+(* family 15 / 115: the protocol-independent view of a response value.
+   15 evaluates the tables translated from the source (Gen/CommonImpls.v),
+   115 the specification (Spec/ViewSpec.v). *)
+Fixpoint rd_tree (fuel : nat) : R jv :=
+  match fuel with
+  | O => fail PacketBad
+  | S f =>
+      let* t := rd_u8 in
+      if t =? 0 then ret JNull
+      else if t =? 1 then ret (JBool false)
+      else if t =? 2 then ret (JBool true)
+      else if (t =? 3) || (t =? 7) then      (* 7: a float given as an integer; no view reads one *)
+        let* sg := rd_u8 in let* m := rd_u64 in ret (JNum (if sg =? 0 then Z.of_N m else (- Z.of_N m)%Z))
+      else if t =? 4 then let* b := rd_bytes16 in ret (JStr b)
+      else if t =? 5 then let* n := rd_u16 in let* l := rd_list (N.to_nat n) (rd_tree f) in ret (JList l)
+      else if t =? 6 then
+        let* n := rd_u16 in
+        let* l := rd_list (N.to_nat n) (let* k := rd_bytes16 in let* v := rd_tree f in ret (string_of_bytes k, v)) in
+        ret (JObj l)
+      else fail PacketBad
+  end.
+Definition case_view : R bytes :=
+  let* kb := rd_bytes16 in
+  let* r := rd_tree 12 in
+  let key := string_of_bytes kb in
+  let pk := match assoc key response_impls with Some t => ti_player t | None => EmptyString end in
+  ret (view_line key (i_response_acc key) (i_player_acc pk)
+         (orig_of response_impls key) (orig_of player_impls pk) (i_response_json key)
+         json_keys player_json_keys r).
+Definition case_spec_view : R bytes :=
+  let* kb := rd_bytes16 in
+  let* r := rd_tree 12 in
+  let key := string_of_bytes kb in
+  match assoc key spec_responses with
+  | None => ret (str "NO-SPEC")
+  | Some s =>
+      let ps := assoc (sp_player s) spec_players in
+      ret (view_line key (fun a => eval_s (spec_acc s a))
+             (fun a p => match ps with Some q => eval_s (spec_acc q a) p | None => None end)
+             (Some (sp_orig s)) (option_map sp_orig ps) (spec_json json_keys player_json_keys s)
+             json_keys player_json_keys r)
+  end.
+
 Definition run_case_R : R bytes :=
   let* fam := rd_u8 in
   if fam =? 1 then case_bufops
@@ -353,11 +397,13 @@ Definition run_case_R : R bytes :=
   else if fam =? 6 then case_varint_rt
   else if fam =? 7 then case_string_rt
   else if fam =? 10 then case_valve
+  else if fam =? 15 then case_view
   else if fam =? 16 then case_master
   else if fam =? 18 then case_settings
   else if fam =? 20 then case_quake
   else if fam =? 22 then case_unreal2
   else if fam =? 110 then case_spec_valve
+  else if fam =? 115 then case_spec_view
   else if fam =? 116 then case_spec_master
   else if fam =? 117 then case_spec_denote
   else if fam =? 120 then case_spec_quake
